@@ -1,5 +1,6 @@
 /- Line-protocol driver for M7 `Tank` + M5b `Controls` (properties C05, C06).  Rationals travel as p/q.
    pi <p/q>
+   mode clamp|extrap                                                     -> ok   (curve lookup of the tanks defined afterwards)
    tank <id> <elev> <min> <max> <diam> <n> {<level> <volume>}*n          n = 0: cylindrical           -> ok
    upd <tank> <prevHead> <head> <demand> <dt>                            -> <newHead>
    vol <tank> <level>                                                    -> <volume>
@@ -55,6 +56,7 @@ def parseWatch : String → Option Watch
 
 structure DState where
   pi : Rat := 355 / 113
+  extrap : Bool := false
   tanks : List (Nat × Tank) := []
   links : Links := []
   tracked : List (Nat × Watch) := []
@@ -183,12 +185,13 @@ def handle (d : DState) (line : String) : DState × String :=
   | ["pi", p] => match parseRat p with
     | some p => ({ d with pi := p }, "ok")
     | none => (d, "bad-op")
+  | ["mode", m] => ({ d with extrap := m == "extrap" }, "ok")
   | "tank" :: id :: e :: mn :: mx :: dm :: n :: rest =>
     match id.toNat?, parseRat e, parseRat mn, parseRat mx, parseRat dm, n.toNat? with
     | some id, some e, some mn, some mx, some dm, some n =>
       match parsePts n rest with
       | some (pts, []) =>
-        let t : Tank := ⟨e, mn, mx, dm, if n == 0 then none else some pts⟩
+        let t : Tank := ⟨e, mn, mx, dm, if n == 0 then none else some pts, d.extrap⟩
         ({ d with tanks := (id, t) :: d.tanks.filter (·.1 != id) }, "ok")
       | _ => (d, "bad-op")
     | _, _, _, _, _, _ => (d, "bad-op")
